@@ -166,7 +166,7 @@ def write_vectors(args):
                 msg = bytes(rng.randrange(256) for _ in range(n))
                 h = st.RF24NetworkHeader(to, typ)
                 cfg = dict(addr=o.node_address, lvl=o.multicast_level, role="net", allowMc=bool(o.allow_multicast),
-                           relay=bool(o.multicast_relay), retSys=bool(o.ret_sys_msg), parent=True)
+                           relay=bool(o.multicast_relay), retSys=bool(o.ret_sys_msg), parent=True, dhcp=[])
                 nd.air.log.clear()
                 q0 = len(o.queue)
                 t0 = s.now
